@@ -275,6 +275,8 @@ func (fr *Frame) lookupLocal(name string, header *ssa.BasicBlock) (Val, bool) {
 					if v, ok := fr.vals[phi]; ok {
 						return v, true
 					}
+					// the loop has not been entered on any path generated so far: unconstrained value
+					return Val{T: fr.u.enc.freshConst("rangeindex_unset", "Int"), S: "Int", Ty: types.Typ[types.Int]}, true
 				}
 			}
 		}
@@ -847,6 +849,15 @@ func (e *Env) trCall(n *ECall) Val {
 		}
 		h := u.arrHeap(st.Elem())
 		return Val{T: app("slice_seq", sel(u.heapCur(e.cur, h), app("sl_base", a.T)), app("sl_off", a.T), app("sl_len", a.T)), S: "RSeq"}
+	case "elems": // the set of elements of a slice
+		a := e.tr(n.Args[0])
+		st, ok := a.Ty.Underlying().(*types.Slice)
+		if !ok {
+			e.fail("elems() needs a slice")
+		}
+		h := u.arrHeap(st.Elem())
+		es := u.enc.sortOf(st.Elem())
+		return Val{T: app(u.sliceElems(es), sel(u.heapCur(e.cur, h), app("sl_base", a.T)), app("sl_off", a.T), app("sl_len", a.T)), S: "(Array " + es + " Bool)"}
 	case "seq_nil":
 		return Val{T: "seq_nil", S: "RSeq"}
 	case "single":
